@@ -180,7 +180,12 @@ func (w *Queue) start() {
 		for {
 			select {
 			case e := <-w.errChan:
-				for _, sub := range w.errorSubscribers {
+				// snapshot the subscribers under the mutex that guards the append in Errors()
+				w.errSubScriberMux.Lock()
+				subs := make([]chan error, len(w.errorSubscribers))
+				copy(subs, w.errorSubscribers)
+				w.errSubScriberMux.Unlock()
+				for _, sub := range subs {
 					sub <- e
 				}
 			case <-w.queueContext.Done():
